@@ -26,6 +26,23 @@ its last point record and between the points and the EVLRs.
        offset_to_point_data + i * record_length, the file's records followed by the values assigned to the new ones, the header
        block / VLRs / EVLRs it had. The model of the in-place routes (Model/RecordPlace.v: append_session over append_start
        translated from LasAppender.__init__, edit_record) is run on the same files: same bytes in the record range.
+  (v)  records and headers from DIFFERENT sources: a header (built through the API, read from a file) and a record whose own point
+       format declares a variant of the header's extra dimensions — the same list, the same set in another order, two names
+       exchanged, a type of equal size, other scales / offsets, another name / description, one dimension split in two, another
+       point format padded to the same record length, or the record was made from the header before the header grew — meet in
+       laspy.open(mode="w") / LasWriter.write_points, LasData(header, points=..), las.points = .., laspy.open(mode="a") /
+       LasAppender.append_points (record from zeros / a LasData / a file read whole or in chunks). laspy may refuse; what it takes
+       must be found by the specification decoder, under the descriptors of the FILE, with the values assigned through the
+       record's named dimensions (by name). The model of the hand-over (Model/RecordPlace.v handover_accepts over point_format_eq /
+       dim_info_eq translated from PointFormat.__eq__ / DimensionInfo.__eq__, ebs_of_dims) says taken / refused and which
+       descriptors the header declares: compared with laspy.
+  (vi) every assignment route into the elements of an extra dimension with 1, 2 or 3 elements, scaled and not: the whole
+       dimension (las[name] = .., las.name = .., las.points[name] = .., [:] , [...]), [:, k], [..., k], [mask, k], [index list /
+       array, k], [i, k] (python / numpy / negative i), [slice, k], [slice, slice], [mask, slice], whole points ([i], [i, :], [mask],
+       [list], [slice]), through sub-views; the value an array, a list, one scalar; the view taken from LasData[name], LasData.name,
+       LasData.points[name], a record, a memory-mapped file; written by LasData.write / a writer in two chunks. The expected
+       content is kept by the same selection on a plain table; the specification decoder reads the file; the model of the
+       assignments (assign_elems) is run on the same (point, element, value) triples.
 Search: the same checks with a second, pure-Python transcription of the tables (struct / int.from_bytes) instead of the
 model, so that a failing input is found without the model."""
 import atexit
@@ -54,6 +71,13 @@ ASSUMPTIONS = [
     "append sessions on a file with bytes of another producer behind its points: the appended records overwrite those bytes (laspy has "
     "no other place for them); what is left of them behind the new end of the records, and the fate of internal waveform data packets "
     "(overwritten, 'Start of Waveform Data Packet Record' not updated), is not judged here: only header, VLRs, EVLRs and point records are",
+    "records handed to a header of another source (v): header and record carry the same x/y/z scales and offsets (re-scaling on the "
+    "hand-over is C11's); a refusal is any exception raised by the call that pairs the two; values are compared as numbers after the "
+    "descriptor's scale and offset (NaNs by bit pattern)",
+    "assignments into elements (vi): in-range values that every value form carries exactly (floats: small dyadic numbers; scaled "
+    "dimensions: binary scales, stored integers below 2**40); one scalar for elements with different scales is given element by "
+    "element; las[name] = scalar / las.name = scalar (whole dimension by name) is not offered by laspy for any dimension and not used; "
+    "an assignment laspy refuses is reported and must have stored nothing",
     "header.scales / header.offsets / VLR.record_data are plain attributes: the caller's object is kept by reference (Python attribute "
     "semantics), so the caller is not made to modify those after the assignment; ExtraBytesParams copies its scales / offsets "
     "(np.array) and the caller is made to re-use them",
@@ -2035,6 +2059,907 @@ def session_finding(s, mm, tag):
     return d
 
 
+# ---------------------------------------------------------------------------------------------------
+# (v) records and headers from DIFFERENT sources: a header (an API-built one, one read from a file) that declares one list of
+# extra dimensions meets a record whose own point format declares a variant of it — the same set in another order, two names
+# exchanged, a type of equal size, other scales / offsets, another name / description, one dimension split in two, another point
+# format padded to the same record length, or the header grew after the record was made from it. The record is handed over through
+# every route that pairs the two (laspy.open(mode="w") / LasWriter.write_points, LasData(header, points=..), las.points = ..,
+# laspy.open(mode="a") / LasAppender.append_points). laspy may refuse; what it accepts must be found by the specification decoder,
+# under the descriptors OF THE FILE, with the values that were assigned through the record's named dimensions.
+# ---------------------------------------------------------------------------------------------------
+MIX_RELATIONS = ["same", "permuted", "swapped-names", "retyped", "rescaled", "renamed", "redescribed", "resplit", "other-format", "grown"]
+MIX_ROUTES = ["open-w", "LasWriter", "LasData-init", "points-setter", "open-a", "LasAppender"]
+MIX_SOURCES = ["packed-zeros", "scaleaware-zeros", "lasdata", "file-read", "file-chunks"]
+
+
+def _eb_size(d):
+    kind, cnt = eb_elem(d["data_type"], d["nbytes"])
+    return int(kind[1:]) * cnt
+
+
+def _same_size_types(d):
+    """(data_type, nbytes) of every other type laspy can declare that takes as many bytes per point"""
+    size = _eb_size(d)
+    out = [(dt, 0) for dt in range(1, 31) if _eb_size({"data_type": dt, "nbytes": 0}) == size]
+    if 3 < size < 256:
+        out.append((0, size))
+    return [t for t in out if t != (d["data_type"], d["nbytes"] if d["data_type"] == 0 else 0)]
+
+
+def _set_type(rng, d, dt, nb, scaled=None):
+    d.update(data_type=dt, nbytes=nb if dt == 0 else 0)
+    kind, cnt = eb_elem(dt, nb)
+    can = dt != 0 and kind[0] != "f"
+    sc = (d["scaled"] if scaled is None else scaled) if can else 0
+    d.update(scaled=3 if sc else 0, flags=0, junk="",
+             scales=[lasio.f64bits(rng.choice(EXACT_SCALES)) for _ in range(cnt)] if sc else [],
+             offsets=[lasio.f64bits(rng.choice(EXACT_OFFSETS)) for _ in range(cnt)] if sc else [])
+
+
+def _pad_dims(rng, diff):
+    """extra dimensions of diff bytes that stand where another point format has standard fields (named like them when they fit)"""
+    mk = lambda name, dt, nb=0: {"data_type": dt, "nbytes": nb, "scaled": 0, "scales": [], "offsets": [], "name": name,
+                                 "description": "", "flags": 0, "junk": ""}
+    if diff == 8:
+        return [mk("gps_time", 10)]
+    if diff == 6:
+        return [mk("red", 3), mk("green", 3), mk("blue", 3)]
+    if diff == 2:
+        return [mk("nir", 3)]
+    if diff <= 3:
+        return [mk("pad", [1, 11, 21][diff - 1])]
+    if diff < 256:
+        return [mk("pad", 0, diff)]
+    return None
+
+
+def make_mix(rng, idx, relation, route, source, header_src):
+    import copy
+    for _ in range(50):
+        version, fa = rng.choice([(v, f) for v in lasio.VERSIONS for f in lasio.COMPAT[v]])
+        k = rng.choice([2, 2, 3, 4]) if relation in ("permuted", "swapped-names") else rng.choice([1, 2, 3])
+        A = rand_extra_dims(rng, k, True)
+        for i, d in enumerate(A):
+            d["name"] = f"e{i}" + rand_name(rng, rng.choice([0, 1, 5]))
+        B, fb = copy.deepcopy(A), fa
+        j = rng.randrange(k)
+        if relation == "permuted":
+            perm = list(range(k))
+            while perm == list(range(k)):
+                rng.shuffle(perm)
+            B = [B[p] for p in perm]
+        elif relation == "swapped-names":
+            # two dimensions of one type exchange their names: the bytes line up, the names do not
+            j2 = (j + 1) % k
+            _set_type(rng, A[j2], A[j]["data_type"], A[j]["nbytes"], scaled=0)
+            _set_type(rng, A[j], A[j]["data_type"], A[j]["nbytes"], scaled=0)
+            B = copy.deepcopy(A)
+            B[j]["name"], B[j2]["name"] = A[j2]["name"], A[j]["name"]
+        elif relation == "retyped":
+            others = _same_size_types(A[j])
+            if not others:
+                continue
+            dt, nb = rng.choice(others)
+            _set_type(rng, B[j], dt, nb)
+        elif relation == "rescaled":
+            if A[j]["data_type"] == 0 or eb_elem(A[j]["data_type"], 0)[0][0] == "f":
+                _set_type(rng, A[j], rng.choice([3, 4, 5, 6, 13, 14, 24, 26]), 0)
+                B = copy.deepcopy(A)
+            if not A[j]["scaled"] or rng.random() < 0.7:
+                # other scales or offsets (or scaled against plain)
+                for _ in range(20):
+                    _set_type(rng, B[j], B[j]["data_type"], 0, scaled=1)
+                    if (B[j]["scales"], B[j]["offsets"]) != (A[j]["scales"], A[j]["offsets"]):
+                        break
+            else:
+                _set_type(rng, B[j], B[j]["data_type"], 0, scaled=0)
+        elif relation == "renamed":
+            B[j]["name"] = A[j]["name"] + "x"
+        elif relation == "redescribed":
+            B[j]["description"] = (A[j]["description"] + "!")[-32:] if len(A[j]["description"]) < 32 else A[j]["description"][:-1]
+        elif relation == "resplit":
+            _set_type(rng, A[j], rng.choice([3, 4, 5, 6, 7, 8, 9, 10]), 0, scaled=0)
+            B = copy.deepcopy(A)
+            half = {2: [1, 2], 4: [3, 4], 8: [5, 6, 9]}[_eb_size(A[j])]
+            lo, hi = copy.deepcopy(A[j]), copy.deepcopy(A[j])
+            _set_type(rng, lo, rng.choice(half), 0, scaled=0)
+            _set_type(rng, hi, rng.choice(half), 0, scaled=0)
+            lo["name"], hi["name"] = A[j]["name"] + "l", A[j]["name"] + "h"
+            B[j:j + 1] = [lo, hi]
+        elif relation == "other-format":
+            fb = rng.choice([f for f in lasio.COMPAT[version] if f != fa])
+            diff = PY_SIZES[fa] - PY_SIZES[fb]
+            pad = _pad_dims(rng, abs(diff))
+            if pad is None:
+                continue
+            # (named like the other format's fields only where the receiving format has no field of that name)
+            taken = {nm for nm, _ in PY_FORMATS[fb if diff > 0 else fa]} | {nm for nm, _ in py_leaves(fb if diff > 0 else fa, [])}
+            for q, d in enumerate(pad):
+                if d["name"] in taken:
+                    d["name"] = f"pad{q}"
+            if diff > 0:
+                B = pad + B
+            else:
+                A = pad + A
+        elif relation == "grown":
+            B = B[:-1]
+        if len({d["name"] for d in A}) != len(A) or len({d["name"] for d in B}) != len(B):
+            continue
+        break
+    n0, n = rng.choice([0, 1, 3]), rng.choice([1, 2, 4, 5])
+    if relation == "grown":
+        source = rng.choice(["packed-zeros", "scaleaware-zeros", "lasdata"])
+        header_src = "api"
+    return {"id": f"m{idx}", "version": version, "format": fa, "format_b": fb, "dims_a": A, "dims_b": B, "relation": relation,
+            "route": route, "source": source, "header_src": header_src, "chunk": rng.choice([1, 2, 3]),
+            "scales": [lasio.f64bits(rng.choice([0.001, 0.01, 0.5, 1.0])) for _ in range(3)],
+            "offsets": [lasio.f64bits(rng.choice([0.0, -1000.0, 123456.75])) for _ in range(3)],
+            "n0": n0, "n": n, "points_a": gen_points(rng, fa, A, 0, n0, True), "points_b": gen_points(rng, fb, B, 0, n, True)}
+
+
+def make_mixes(ctx):
+    rng = ctx.rng
+    out = []
+    # every relation through every route (sources and kinds of header in turn), then random combinations
+    for a, rel in enumerate(MIX_RELATIONS):
+        for b, route in enumerate(MIX_ROUTES):
+            out.append(make_mix(rng, len(out), rel, route, MIX_SOURCES[(a + b + ctx.seed) % len(MIX_SOURCES)], ["api", "file"][(a + b) % 2]))
+    for _ in range(ctx.n(20, 1500)):
+        out.append(make_mix(rng, len(out), rng.choice(MIX_RELATIONS + ["same", "permuted", "retyped"]), rng.choice(MIX_ROUTES),
+                            rng.choice(MIX_SOURCES), rng.choice(["api", "file"])))
+    return out
+
+
+def _mix_header(mix, fmt, dims):
+    import laspy
+    h = laspy.LasHeader(version=mix["version"], point_format=fmt)
+    h.scales = np.array([lasio.bits_f64(b) for b in mix["scales"]])
+    h.offsets = np.array([lasio.bits_f64(b) for b in mix["offsets"]])
+    if dims:
+        h.add_extra_dims([Caller(None).param(d) for d in dims])
+    return h
+
+
+def mix_run(mix):
+    """the laspy side -> {"file": bytes | None, "accepted": [points of each chunk laspy took], "refused": [exception kinds],
+    "replaced": the accepted record replaces the destination's own points}"""
+    import laspy
+    from laspy.lasappender import LasAppender
+    A, B, n0, n = mix["dims_a"], mix["dims_b"], mix["n0"], mix["n"]
+    case_a, case_b = {"format": mix["format"], "extra_dims": A}, {"format": mix["format_b"], "extra_dims": B}
+    grown = mix["relation"] == "grown"
+    ha = _mix_header(mix, mix["format"], B if grown else A)
+    if mix["header_src"] == "file" and not grown:
+        bio = io.BytesIO()
+        laspy.LasData(ha).write(bio)
+        if mix["n"] % 2:
+            ha = laspy.read(io.BytesIO(bio.getvalue())).header
+        else:
+            with laspy.open(io.BytesIO(bio.getvalue())) as rd:
+                ha = rd.header
+    hb = ha if grown else _mix_header(mix, mix["format_b"], B)
+    src = mix["source"]
+    if src == "packed-zeros":
+        rec = laspy.PackedPointRecord.zeros(n, hb.point_format)
+        assign_points(rec, case_b, mix["points_b"])
+        chunks = [rec]
+    elif src == "scaleaware-zeros":
+        rec = laspy.ScaleAwarePointRecord.zeros(n, header=hb)
+        assign_points(rec, case_b, mix["points_b"])
+        chunks = [rec]
+    else:
+        lb = laspy.LasData(hb)
+        lb.points = laspy.ScaleAwarePointRecord.zeros(n, header=hb)
+        assign_points(lb, case_b, mix["points_b"])
+        if src == "lasdata":
+            chunks = [lb.points]
+        else:
+            bio = io.BytesIO()
+            lb.write(bio)
+            if src == "file-read":
+                chunks = [laspy.read(io.BytesIO(bio.getvalue())).points]
+            else:
+                with laspy.open(io.BytesIO(bio.getvalue())) as rd:
+                    chunks = list(rd.chunk_iterator(mix["chunk"]))
+    if grown:
+        # the header the record was made from gets one more dimension afterwards
+        ha.add_extra_dim(Caller(None).param(A[-1]))
+    rec_a = laspy.ScaleAwarePointRecord.zeros(n0, header=ha)
+    if n0:
+        assign_points(rec_a, case_a, mix["points_a"])
+    res = {"file": None, "accepted": [], "refused": [], "replaced": False,
+           "model_in": (int(ha.point_format.id), impl_dims(ha.point_format), int(chunks[0].point_format.id),
+                        impl_dims(chunks[0].point_format, chunks[0].array.dtype))}
+
+    def hand(fn, chunk):
+        try:
+            fn(chunk)
+            res["accepted"].append(len(chunk))
+        except Exception as ex:
+            res["accepted"].append(0)
+            res["refused"].append(common.exc_kind(ex))
+    out = io.BytesIO()
+    route = mix["route"]
+    if route in ("open-w", "LasWriter"):
+        w = laspy.open(out, mode="w", header=ha, closefd=False) if route == "open-w" else laspy.LasWriter(out, ha, closefd=False)
+        with w:
+            if n0:
+                w.write_points(rec_a)
+            for c in chunks:
+                hand(w.write_points, c)
+        res["file"] = out.getvalue()
+    elif route in ("open-a", "LasAppender"):
+        laspy.LasData(ha, rec_a).write(out)
+        out.seek(0)
+        ap = laspy.open(out, mode="a", closefd=False) if route == "open-a" else LasAppender(out, closefd=False)
+        with ap:
+            for c in chunks:
+                hand(ap.append_points, c)
+        res["file"] = out.getvalue()
+    elif route == "LasData-init":
+        made = []
+        hand(lambda c: made.append(laspy.LasData(ha, points=c)), chunks[0])
+        res["replaced"] = True
+        if made:
+            made[0].write(out)
+            res["file"] = out.getvalue()
+    else:
+        las = laspy.LasData(ha, rec_a)
+
+        def setter(c):
+            las.points = c
+        hand(setter, chunks[0])
+        res["replaced"] = bool(res["accepted"][0])
+        las.write(out)
+        res["file"] = out.getvalue()
+    return res
+
+
+def impl_dims(pf, array_dtype=None):
+    """the extra dimensions of a point format in the vocabulary of the model (Gen/GenC02.v dim_info): name, DimensionKind value,
+    bits, elements, is_standard, description, offsets, scales.  With array_dtype: the dimensions the record's ARRAY really has (its
+    fields beyond the format's standard ones), described by the point format where it knows them"""
+    from laspy.point import dims as ldims
+
+    def arr(a):
+        return "N" if a is None else (",".join(str(lasio.f64bits(float(x))) for x in np.asarray(a).reshape(-1)) or "e")
+
+    def tok(name, kind, bits, cnt, std, desc, of, sc):
+        return f"{name}:{int(kind.value)}:{int(bits)}:{int(cnt)}:{'T' if std else 'F'}:x{desc.encode('latin1', 'replace').hex()}:{arr(of)}:{arr(sc)}"
+    out = []
+    if array_dtype is None:
+        for d in pf.extra_dimensions:
+            out.append(tok(d.name, d.kind, d.num_bits, d.num_elements, d.is_standard, d.description, d.offsets, d.scales))
+    else:
+        std = set(ldims.ALL_POINT_FORMATS_DTYPE[pf.id].names)
+        known = {d.name: d for d in pf.extra_dimensions}
+        for name in array_dtype.names:
+            if name in std:
+                continue
+            ft = array_dtype.fields[name][0]
+            cnt = int(ft.shape[0]) if ft.ndim == 1 else 1
+            d = known.get(name)
+            out.append(tok(name, ldims.DimensionKind.from_letter(ft.base.kind), ft.itemsize * 8, cnt, False,
+                           d.description if d is not None else "", d.offsets if d is not None else None, d.scales if d is not None else None))
+    return ";".join(out) or "-"
+
+
+def model_mixes(mixes, outcomes, dis):
+    """the model of the hand-over (Model/RecordPlace.v handover_accepts over Gen/GenC02.v point_format_eq / dim_info_eq, translated
+    from PointFormat.__eq__ and DimensionInfo.__eq__) against laspy: taken or refused; and the Extra Bytes descriptors the model
+    derives from the header's dimensions (ebs_of_dims) against the descriptors the specification decoder finds in the file"""
+    lines, idx = [], []
+    for m, (_, r) in zip(mixes, outcomes):
+        if "error" in r or "model_in" not in r:
+            continue
+        hid, hd, rid, rd = r["model_in"]
+        lines += [f"accepts {hid} {hd} {rid} {rd}", f"ebs_of_dims {hd}"]
+        idx.append((m, r))
+    outs = common.run_model(lines, name="c02")
+    files = [r["file"] for _, r in idx if r["file"] is not None]
+    dec = iter(spec_decode_files(PyRef(), files))
+    for q, (m, r) in enumerate(idx):
+        verdict, ebs = outs[2 * q], outs[2 * q + 1]
+        took = bool(r["accepted"] and r["accepted"][0])
+        if verdict not in ("T", "F") or (verdict == "T") != took:
+            dis.append({"kind": ("stale record" if m["relation"] == "grown" else "mixed sources") + ": taken or refused", "input": {"direction": "mix", "mix": m}, "model": f"accepts = {verdict} for {r['model_in']}",
+                        "impl": f"{m['route']}: " + ("taken" if took else f"refused ({r['refused'][:1]})")})
+        if r["file"] is not None:
+            R = next(dec)
+            if "error" not in R:
+                want = "ok " + (";".join(f"{d['name'].decode('latin1')}:{d['data_type']}:{d['options'] if d['data_type'] == 0 else 0}" for d in R["descriptors"]) or "-")
+                if ebs != want:
+                    dis.append({"kind": "mixed sources: descriptors the header declares", "input": {"direction": "mix", "mix": m}, "model": ebs, "impl": want})
+
+
+def elem_triples(case, i, refused=()):
+    """the assignments to dimension i of an element case as (point, element, stored value) triples, in order"""
+    d = case["extra_dims"][i]
+    n, cnt = case["n"], eb_elem(d["data_type"], 0)[1]
+    I = np.arange(n * cnt).reshape((n, cnt) if cnt > 1 else (n,))
+    out = []
+    for q, op in enumerate(case["ops"]):
+        if op["dim"] != i or q in refused:
+            continue
+        pos = np.asarray(I[_elem_sel(op, n, cnt)])
+        vals = np.empty(pos.shape, dtype=object)
+        vals[...] = np.array(op["raws"], dtype=object).reshape(pos.shape) if isinstance(op["raws"], list) else op["raws"]
+        out += [(int(p) // cnt, int(p) % cnt, int(v)) for p, v in zip(pos.reshape(-1), vals.reshape(-1))]
+    return out
+
+
+def model_elems(cases, dis):
+    """the model of the assignments (Model/RecordPlace.v assign_elems: the named positions get their values, nothing else changes)
+    against the stored values the specification decoder finds in laspy's file"""
+    outs = [_ELEM_OUT.get(repr(c["id"]) + repr(c["ops"])) for c in cases]
+    live = [(c, o) for c, o in zip(cases, outs) if o is not None and not isinstance(o, dict)]
+    dec = spec_decode_files(PyRef(), [o[0] for _, o in live])
+    lines, idx = [], []
+    for (c, o), R in zip(live, dec):
+        if "error" in R or is_err(R["points"]) or len(R["points"]) != c["n"]:
+            continue
+        refused = {q for q, _ in o[1]}
+        leaves = py_leaves(c["format"], eb_pairs(c["extra_dims"]))
+        for i, d in enumerate(c["extra_dims"]):
+            cnt = eb_elem(d["data_type"], 0)[1]
+            cols = [j for j, (nm, _) in enumerate(leaves) if nm == f"e{i}"]
+            got = ";".join(",".join(str(p[j]) for j in cols) for p in R["points"])
+            sel = ";".join(f"{a}:{b}:{v}" for a, b, v in elem_triples(c, i, refused)) or "-"
+            lines.append("assign " + ";".join(",".join(["0"] * cnt) for _ in range(c["n"])) + " " + sel)
+            idx.append((c, i, got))
+    for (c, i, got), o in zip(idx, common.run_model(lines, name="c02")):
+        if o != got:
+            dis.append({"kind": "element assignment: stored values", "input": {"direction": "elements", "case": c},
+                        "model": f"dimension {i}: {o[:300]}", "impl": f"dimension {i}: {got[:300]}"})
+
+
+def _sem(kind, sc, of, raw):
+    """the value a stored integer / bit pattern stands for: the number, after the descriptor's scale and offset"""
+    if isinstance(kind, tuple):
+        return raw
+    if kind[0] == "f":
+        v = float(np.array([raw], dtype=np.uint32 if kind == "f4" else np.uint64).view("<" + kind)[0])
+        return ("nan", kind, raw) if v != v else v
+    if sc is None and of is None:
+        return raw
+    return float(raw) * (1.0 if sc is None else sc) + (0.0 if of is None else of)
+
+
+def _named_case_columns(fmt, dims):
+    """[(dimension name, element index, kind, scale, offset)] per leaf of a record of format fmt + dims"""
+    out, seen = [], {}
+    for name, kind in py_leaves(fmt, eb_pairs(dims)):
+        if name[0] == "e" and name[1:].isdigit():
+            d = dims[int(name[1:])]
+            k = seen.get(name, 0)
+            seen[name] = k + 1
+            sc = lasio.bits_f64(d["scales"][k]) if d["scaled"] and d["data_type"] else None
+            of = lasio.bits_f64(d["offsets"][k]) if d["scaled"] and d["data_type"] else None
+            out.append((d["name"], k, kind, sc, of))
+        else:
+            out.append((name, 0, kind, None, None))
+    return out
+
+
+def _named_file_columns(R):
+    """{(dimension name, element index): (kind, scale, offset, leaf index)} of a decoded file, under ITS descriptors"""
+    out, seen = {}, {}
+    descs = R["descriptors"]
+    for j, (name, kind) in enumerate(py_leaves(R["header"]["format"], R["ebs"])):
+        if name[0] == "e" and name[1:].isdigit():
+            d = descs[int(name[1:])]
+            k = seen.get(name, 0)
+            seen[name] = k + 1
+            opts = d["options"] if d["data_type"] != 0 else 0
+            sc = lasio.bits_f64(d[f"scale[{k}]"]) if opts & 8 and k < 3 else None
+            of = lasio.bits_f64(d[f"offset[{k}]"]) if opts & 16 and k < 3 else None
+            out.setdefault((d["name"].decode("latin1"), k), (kind, sc, of, j))
+        elif name != TRAIL_NAME:
+            out.setdefault((name, 0), (kind, None, None, j))
+    return out
+
+
+def mix_compare(mix, res, R):
+    """-> [(class, detail)]"""
+    if res["file"] is None:
+        return []
+    if "error" in R:
+        return [("file structure", R["error"])]
+    took = sum(res["accepted"])
+    rows = [] if res["replaced"] else [("a", p) for p in mix["points_a"]]
+    rows += [("b", p) for p in mix["points_b"][:took]]
+    pts = R["points"]
+    if is_err(pts) or is_err(R["record_size"]):
+        return [("file structure", f"point records: {pts}")]
+    if R["header"]["point_size"] != R["spec_point_size"] or R["header"]["file_len"] != R["header"]["expected_len"]:
+        return [("file structure", f"record length {R['header']['point_size']}, format + described bytes {R['spec_point_size']}; file of "
+                 f"{R['header']['file_len']} bytes, header + VLRs + records end at {R['header']['expected_len']}")]
+    if len(pts) != len(rows):
+        return [("point count", f"{len(rows)} points were accepted, the file has {len(pts)}")]
+    cols = {"a": _named_case_columns(mix["format"], mix["dims_a"]), "b": _named_case_columns(mix["format_b"], mix["dims_b"])}
+    fcols = _named_file_columns(R)
+    out = []
+    for r, (src, vals) in enumerate(rows):
+        for j, (name, k, kind, sc, of) in enumerate(cols[src]):
+            f_ = fcols.get((name, k))
+            if f_ is None:
+                out.append(("dimension missing in the file", f"point {r}: {name}[{k}] was assigned {vals[j]} through the record's dimension "
+                            f"{name!r}; the file's header and descriptors declare no such dimension / element"))
+                break
+            want, got = _sem(kind, sc, of, vals[j]), _sem(f_[0], f_[1], f_[2], pts[r][f_[3]])
+            if want != got:
+                out.append(("point values", f"point {r} ({'the destination own' if src == 'a' else 'the accepted'} record): {name}[{k}] assigned {want!r} "
+                            f"(stored {vals[j]} as {kind}), the decoder reads {got!r} ({pts[r][f_[3]]} as {f_[0]}) under the file's descriptors"))
+                break
+        if out:
+            break
+    return out
+
+
+_MIX_OUT = {}
+
+
+def run_mixes(ref, mixes):
+    """-> per mix (list of mismatches, outcome of the laspy side)"""
+    runs = []
+    for m in mixes:
+        key = repr(m["id"]) + repr(m["relation"]) + repr(m["points_b"][:1])
+        if key not in _MIX_OUT:
+            try:
+                _MIX_OUT[key] = mix_run(m)
+            except Exception as ex:
+                _MIX_OUT[key] = {"error": f"{common.exc_kind(ex)}: {str(ex)[:200]}"}
+        runs.append(_MIX_OUT[key])
+    live = [i for i, r in enumerate(runs) if "error" not in r and r["file"] is not None]
+    dec = dict(zip(live, spec_decode_files(ref, [runs[i]["file"] for i in live])))
+    res = []
+    for i, (m, r) in enumerate(zip(mixes, runs)):
+        if "error" in r:
+            res.append(([("laspy failed outside the hand-over", r["error"])], r))
+        else:
+            res.append((mix_compare(m, r, dec.get(i, {})), r))
+    return res
+
+
+def mix_finding(m, mm, tag):
+    # (a record made from the header itself, before the header grew, is the one relation where nothing comes from another source:
+    # its own class of failure)
+    d = {"kind": ("stale record: " if m["relation"] == "grown" else "mixed sources: ") + mm[0], "input": {"direction": "mix", "mix": m}}
+    d[tag] = f"route {m['route']}, record from {m['source']}, header from {m['header_src']}; header and record are '{m['relation']}' ({[type_str(x['data_type'], x['nbytes']) + ':' + x['name'] for x in m['dims_a']]} / " \
+             f"{[type_str(x['data_type'], x['nbytes']) + ':' + x['name'] for x in m['dims_b']]}): {mm[1]}"
+    return d
+
+
+def register_mixes(ctx, mixes, outcomes):
+    for m, (_, r) in zip(mixes, outcomes):
+        took = sum(r.get("accepted", [])) if "error" not in r else 0
+        ctx.count("mixed sources")
+        ctx.count(f"mixed sources: {m['relation']} " + ("accepted" if took else "refused"))
+        ctx.count(f"mixed sources route {m['route']}")
+        ctx.case(("mix", m["relation"], m["route"], m["source"], m["header_src"], m["version"], m["format"], m["format_b"],
+                  tuple(eb_pairs(m["dims_a"])), tuple(eb_pairs(m["dims_b"])), repr(m["points_b"][:1])), nontrivial=True,
+                 sample={"direction": "mix", "relation": m["relation"], "route": m["route"], "record_from": m["source"], "header_from": m["header_src"],
+                         "header_dims": [type_str(d["data_type"], d["nbytes"]) for d in m["dims_a"]],
+                         "record_dims": [type_str(d["data_type"], d["nbytes"]) for d in m["dims_b"]], "accepted_points": took})
+        ctx.evaluations += (m["n0"] + took) * len(py_leaves(m["format"], eb_pairs(m["dims_a"])))
+        ctx.traces += 1
+
+
+# ---------------------------------------------------------------------------------------------------
+# (vi) every assignment route into the elements of an extra dimension (1, 2 or 3 elements; scaled and not): the whole dimension,
+# one element of all points ([:, k], [..., k]), of the points a mask / a list / an array of indices / an integer / a slice selects,
+# a block [slice, slice], whole points ([i], [mask], [list], [slice]), through a sub-view; the value an array, a list, one scalar;
+# the view taken from LasData[name], LasData.<name>, LasData.points[name], a record, a memory-mapped file. The expected content is
+# kept by the same selection on a plain table; the specification decoder reads the written file.
+# ---------------------------------------------------------------------------------------------------
+ELEM_KEYS_MULTI = ["whole", "whole[:]", "whole[...]", "attr", "points[name]", "col", "ecol", "mask", "idx", "idx-array", "int", "int-np", "int-neg",
+                   "slice-k", "block", "row", "row-colon", "rows-mask", "rows-idx", "rows-slice", "subview", "subview-slice", "mask-block"]
+ELEM_KEYS_SINGLE = ["whole", "whole[:]", "attr", "points[name]", "mask1", "idx1", "idx1-array", "int1", "slice1"]
+ELEM_VALUES = ["array", "list", "scalar", "other-dtype", "np-scalar"]      # other-dtype: an array of another numpy type that holds the same numbers
+ELEM_WHOLE_BY_NAME = ("whole", "attr", "points[name]")      # las[name] = v, las.name = v, las.points[name] = v: laspy takes no scalar there (any dimension)
+ELEM_CONTAINERS = ["las[name]", "las.name", "las.points[name]", "record", "mmap"]
+ELEM_FLOATS = [0.0, 1.5, -2.25, 1024.0, -0.5, 3.0, 65536.0, -1.0, 0.125, 7.0]
+
+
+def _elem_sel(op, n, cnt):
+    """the numpy key that names the positions an op assigns, on a table of shape (n, cnt) / (n,)"""
+    t = op["t"]
+    if t in ("whole", "whole[:]", "whole[...]", "attr", "points[name]"):
+        return Ellipsis
+    if t in ("col", "ecol", "subview"):
+        return (slice(None), op["k"])
+    if t in ("mask", "mask1"):
+        m = np.array(op["mask"], dtype=bool)
+        return (m, op["k"]) if t == "mask" else m
+    if t in ("idx", "idx-array"):
+        return (list(op["idx"]), op["k"])
+    if t in ("idx1", "idx1-array"):
+        return list(op["idx"])
+    if t in ("int", "int-np", "int-neg"):
+        return (op["i"], op["k"])
+    if t == "int1":
+        return op["i"]
+    if t in ("slice-k", "subview-slice"):
+        return (slice(*op["ps"]), op["k"])
+    if t == "slice1":
+        return slice(*op["ps"])
+    if t == "block":
+        return (slice(*op["ps"]), slice(*op["es"]))
+    if t == "mask-block":
+        return (np.array(op["mask"], dtype=bool), slice(*op["es"]))
+    if t in ("row", "row-colon"):
+        return op["i"]
+    if t == "rows-mask":
+        return np.array(op["mask"], dtype=bool)
+    if t == "rows-idx":
+        return list(op["idx"])
+    if t == "rows-slice":
+        return slice(*op["ps"])
+    raise KeyError(t)
+
+
+ELEM_FIELDS = {"k": ("col", "ecol", "mask", "idx", "idx-array", "int", "int-np", "int-neg", "slice-k", "subview", "subview-slice"),
+               "mask": ("mask", "mask1", "rows-mask", "mask-block"), "idx": ("idx", "idx-array", "idx1", "idx1-array", "rows-idx"),
+               "i": ("int", "int-np", "int-neg", "int1", "row", "row-colon"),
+               "ps": ("slice-k", "slice1", "block", "rows-slice", "subview-slice"), "es": ("block", "mask-block")}
+
+
+def make_elem_op(rng, t, n, cnt, dim, vform):
+    """one assignment: key type t on dimension dim (cnt elements, n points), the value given as vform; only the selectors t uses"""
+    mask = [rng.random() < 0.5 for _ in range(n)]
+    if not any(mask):
+        mask[rng.randrange(n)] = True
+    a = rng.randrange(n)
+    k0 = rng.randrange(cnt)
+    every = {"k": rng.randrange(cnt), "es": [k0, rng.randrange(k0 + 1, cnt + 1), 1], "mask": mask,
+             "idx": rng.sample(range(n), rng.randrange(1, n)), "i": rng.randrange(n) - (n if t == "int-neg" else 0),
+             "ps": [a, rng.randrange(a + 1, n + 1), rng.choice([1, 1, 2, 3])]}
+    op = {"t": t, "dim": dim, "value": vform}
+    op.update({f: v for f, v in every.items() if t in ELEM_FIELDS[f]})
+    return op
+
+
+def make_elem_case(rng, idx, plan, container):
+    """plan: [(key type, scaled, value form)] to be covered by this case's ops"""
+    version, fmt = rng.choice([(v, f) for v in lasio.VERSIONS for f in lasio.COMPAT[v]])
+    n = rng.choice([5, 6, 7, 9])
+    dims, ops = [], []
+    for t, scaled, vform in plan:
+        single = t in ("mask1", "idx1", "idx1-array", "int1", "slice1") or (t in ("whole", "whole[:]", "attr", "points[name]") and rng.random() < 0.25)
+        # a dimension of the wanted shape: re-used when the case already has one
+        want = lambda d: (eb_elem(d["data_type"], 0)[1] == 1) == single and bool(d["scaled"]) == scaled
+        have = [i for i, d in enumerate(dims) if want(d)]
+        if have and (len(dims) >= 3 or rng.random() < 0.6):
+            i = rng.choice(have)
+        else:
+            d = rand_extra_dims(rng, 1, True)[0]
+            base = rng.choice([1, 2, 3, 4, 5, 6, 7, 8] if scaled else [1, 2, 3, 4, 5, 6, 7, 8, 9, 10])
+            _set_type(rng, d, base + (0 if single else rng.choice([10, 20])), 0, scaled=1 if scaled else 0)
+            d["name"] = f"e{len(dims)}" + rand_name(rng, rng.choice([0, 2]))
+            dims.append(d)
+            i = len(dims) - 1
+            # every dimension starts with an assignment of all its elements
+            ops.append(make_elem_op(rng, rng.choice(["whole", "whole[:]", "attr", "points[name]"]), n, eb_elem(d["data_type"], 0)[1], i, "array"))
+        ops.append(make_elem_op(rng, t, n, eb_elem(dims[i]["data_type"], 0)[1], i, vform))
+    case = {"id": f"a{idx}", "version": version, "format": fmt, "n": n, "extra_dims": dims, "container": container, "ops": ops,
+            "entry": rng.choice(["write", "writer"])}
+    # the stored values each op assigns: a table per dimension follows the ops; new values differ from what is there
+    tables = [_elem_table(n, d) for d in dims]
+    for op in ops:
+        d = dims[op["dim"]]
+        kind, cnt = eb_elem(d["data_type"], 0)
+        T = tables[op["dim"]]
+        sel = _elem_sel(op, n, cnt)
+        cur = T[sel]
+        if op["value"] in ("scalar", "np-scalar") and d["scaled"] and cnt > 1 and np.ndim(cur) > 0:
+            # one scaled value for elements that have their own scale and offset is not one stored value: element by element then
+            S = np.empty((n, cnt), dtype=object)
+            for q in range(cnt):
+                S[:, q] = f"{d['scales'][q]}/{d['offsets'][q]}"
+            if len(set(np.asarray(S[sel], dtype=object).reshape(-1).tolist())) > 1:
+                op["value"] = "list"
+        if op["value"] in ("scalar", "np-scalar") or np.ndim(cur) == 0:
+            cur_list = [cur] if np.ndim(cur) == 0 else list(np.asarray(cur, dtype=object).reshape(-1))
+            for _ in range(50):
+                v = _elem_raw(rng, kind, d["scaled"])
+                if v not in cur_list:
+                    break
+            op["raws"] = v
+            T[sel] = v
+        else:
+            flat = [_elem_raw(rng, kind, d["scaled"], avoid=c) for c in np.asarray(cur, dtype=object).reshape(-1)]
+            new = np.empty(len(flat), dtype=object)
+            new[:] = flat
+            new = new.reshape(np.shape(cur))
+            op["raws"] = new.tolist()
+            T[sel] = new
+    return case
+
+
+def _elem_table(n, d):
+    cnt = eb_elem(d["data_type"], 0)[1]
+    T = np.empty((n, cnt) if cnt > 1 else (n,), dtype=object)
+    T[...] = 0
+    return T
+
+
+def _elem_raw(rng, kind, scaled, avoid=None):
+    """a stored value of one element: an integer in range (kept below 2**40 for scaled dimensions: the scaled value is exact),
+    the bit pattern of a float that every value form carries exactly"""
+    for _ in range(50):
+        if kind[0] == "f":
+            x = rng.choice(ELEM_FLOATS + [float(rng.randrange(-1000, 1000)) / 4])
+            v = int(np.array([x], dtype="<" + kind).view(np.uint32 if kind == "f4" else np.uint64)[0])
+        else:
+            w = int(kind[1:])
+            cap = 40 if scaled else 8 * w
+            lo, hi = (-(2 ** min(8 * w - 1, cap)), 2 ** min(8 * w - 1, cap) - 1) if kind[0] == "i" else (0, 2 ** min(8 * w, cap) - 1)
+            v = rng.choice([lo, hi, 1, rng.randrange(lo, hi + 1), rng.randrange(lo, hi + 1)])
+        if v != avoid:
+            return v
+    return v
+
+
+def make_elem_cases(ctx):
+    rng = ctx.rng
+    plan = [(t, sc, vf) for t in ELEM_KEYS_MULTI + [k for k in ELEM_KEYS_SINGLE if k not in ELEM_KEYS_MULTI]
+            for sc in (True, False) for vf in ELEM_VALUES if not (vf in ("scalar", "np-scalar") and t in ELEM_WHOLE_BY_NAME)]
+    rng.shuffle(plan)
+    extra = [(rng.choice(ELEM_KEYS_MULTI[5:]), rng.random() < 0.6, rng.choice(ELEM_VALUES)) for _ in range(ctx.n(20, 3000))]
+    plan += [e for e in extra if not (e[2] in ("scalar", "np-scalar") and e[0] in ELEM_WHOLE_BY_NAME)]
+    out = []
+    while plan:
+        k = rng.choice([3, 4, 5, 6])
+        out.append(make_elem_case(rng, len(out), plan[:k], ELEM_CONTAINERS[(len(out) + ctx.seed) % len(ELEM_CONTAINERS)]))
+        plan = plan[k:]
+    return out
+
+
+def _other_dtype(arr, kind, scaled):
+    """the same numbers in an array of another numpy type (None when no other type holds them all exactly)"""
+    if scaled or kind[0] != "f":
+        alt = arr.astype(np.float32 if scaled else np.float64)
+        if scaled:
+            return alt if np.array_equal(alt.astype(np.float64), arr) else None
+        back = alt.astype(arr.dtype) if np.all(np.abs(alt) < 2.0 ** 63) else None
+        return alt if back is not None and np.array_equal(back, arr) and np.all(np.abs(alt) <= 2.0 ** 53) else None
+    alt = arr.astype(np.float64 if kind == "f4" else np.float32)
+    return alt if np.array_equal(alt.astype(arr.dtype), arr) else None
+
+
+def _elem_value(op, d, n):
+    """the object the caller assigns: scaled values for a scaled dimension (stored * scale + offset, per element)"""
+    kind, cnt = eb_elem(d["data_type"], 0)
+    sel = _elem_sel(op, n, cnt)
+    raws, form = op["raws"], op["value"]
+    if d["scaled"]:
+        S = np.empty((n, cnt) if cnt > 1 else (n,), dtype=np.float64)
+        O = np.empty_like(S)
+        S[...] = [lasio.bits_f64(b) for b in d["scales"]] if cnt > 1 else lasio.bits_f64(d["scales"][0])
+        O[...] = [lasio.bits_f64(b) for b in d["offsets"]] if cnt > 1 else lasio.bits_f64(d["offsets"][0])
+        if not isinstance(raws, list):
+            s, o = np.asarray(S[sel]).reshape(-1), np.asarray(O[sel]).reshape(-1)
+            arr = np.float64(float(raws) * float(s[0]) + float(o[0]))
+        else:
+            arr = np.array(raws, dtype=np.float64) * S[sel] + O[sel]
+    elif kind[0] == "f":
+        arr = np.array([raws] if not isinstance(raws, list) else raws, dtype=np.uint32 if kind == "f4" else np.uint64).view("<" + kind)
+        arr = arr if isinstance(raws, list) else arr[0]
+    else:
+        arr = np.array(raws, dtype=NP[kind])
+    if form == "other-dtype":
+        alt = _other_dtype(np.asarray(arr), kind, d["scaled"])
+        alt = np.asarray(arr) if alt is None else alt
+        return alt if alt.ndim else alt[()]       # one value: the numpy scalar (not a 0-d array)
+    if np.ndim(arr) == 0:
+        # one value: a python number, or a numpy scalar / 0-d array
+        return arr if form in ("array", "np-scalar") else arr.item()
+    return arr.tolist() if form == "list" else arr
+
+
+def _elem_apply(view_of, setter, op, d, n):
+    """one op on the implementation; view_of() -> the view of the dimension, setter(value) -> whole-dimension assignment by name"""
+    kind, cnt = eb_elem(d["data_type"], 0)
+    val = _elem_value(op, d, n)
+    t = op["t"]
+    if t in ("whole", "attr", "points[name]"):
+        setter(t, val)
+    elif t == "whole[:]":
+        view_of()[:] = val
+    elif t == "whole[...]":
+        view_of()[...] = val
+    elif t == "ecol":
+        view_of()[..., op["k"]] = val
+    elif t == "subview":
+        view_of()[..., op["k"]][:] = val
+    elif t == "subview-slice":
+        view_of()[slice(*op["ps"])][:, op["k"]] = val
+    elif t in ("idx-array", "idx1-array"):
+        view_of()[(np.array(op["idx"]), op["k"]) if cnt > 1 else np.array(op["idx"])] = val
+    elif t == "int-np":
+        view_of()[np.int64(op["i"]), op["k"]] = val
+    elif t == "row-colon":
+        view_of()[op["i"], :] = val
+    else:
+        view_of()[_elem_sel(op, n, cnt)] = val
+
+
+def elem_run(case):
+    """the laspy side -> bytes of the file | {"error": ...} (an assignment laspy refused: which op, which exception)"""
+    import laspy
+    dims, n = case["extra_dims"], case["n"]
+    h = laspy.LasHeader(version=case["version"], point_format=case["format"])
+    h.add_extra_dims([Caller(None).param(d) for d in dims])
+    cont = case["container"]
+    las = laspy.LasData(h)
+    las.points = laspy.ScaleAwarePointRecord.zeros(n, header=h)
+    las.X = np.arange(1, n + 1)
+    las.intensity = np.arange(n) * 7
+    names = [d.name for d in las.point_format.extra_dimensions]
+    dest, refused = None, []
+    try:
+        if cont == "mmap":
+            dest = Dest("path", f"el{case['id']}")
+            las.write(dest.path)
+            target = laspy.mmap(dest.path)
+        elif cont == "record":
+            target = laspy.ScaleAwarePointRecord.zeros(n, header=h)
+            target["X"] = np.arange(1, n + 1)
+            target["intensity"] = np.arange(n) * 7
+        else:
+            target = las
+        for q, op in enumerate(case["ops"]):
+            name = names[op["dim"]]
+            if cont in ("las.points[name]",):
+                view_of = lambda: target.points[name]
+            elif cont == "las.name":
+                view_of = lambda: getattr(target, name)
+            else:
+                view_of = lambda: target[name]
+
+            def setter(t, val):
+                if t == "attr":
+                    setattr(target, name, val)
+                elif t == "points[name]" and cont != "record":
+                    target.points[name] = val
+                else:
+                    target[name] = val
+            try:
+                _elem_apply(view_of, setter, op, dims[op["dim"]], n)
+            except Exception as ex:
+                # a refused assignment: reported, and it must have stored nothing (the following ops and the file are still judged)
+                refused.append((q, f"op {q} ({op['t']}, value as {op['value']}) on {type_str(dims[op['dim']]['data_type'], 0)}"
+                                   f"{' scaled' if dims[op['dim']]['scaled'] else ''} through {cont}: {common.exc_kind(ex)}: {str(ex)[:160]}"))
+        if cont == "mmap":
+            target.close()
+            return dest.value(), refused
+        if cont == "record":
+            las = laspy.LasData(h, target)
+        out = io.BytesIO()
+        if case["entry"] == "writer":
+            with laspy.open(out, mode="w", header=las.header, closefd=False) as w:
+                w.write_points(las.points[:n // 2])
+                w.write_points(las.points[n // 2:])
+        else:
+            las.write(out)
+        return out.getvalue(), refused
+    finally:
+        if dest is not None:
+            dest.close()
+
+
+def elem_expected(case, refused):
+    """the stored values after the ops, those laspy refused left out"""
+    n, dims = case["n"], case["extra_dims"]
+    tables = [_elem_table(n, d) for d in dims]
+    for q, op in enumerate(case["ops"]):
+        if q in refused:
+            continue
+        T = tables[op["dim"]]
+        sel = _elem_sel(op, n, eb_elem(dims[op["dim"]]["data_type"], 0)[1])
+        if np.ndim(T[sel]) == 0 or not isinstance(op["raws"], list):
+            T[sel] = op["raws"]
+        else:
+            new = np.empty(np.shape(T[sel]), dtype=object)
+            new[...] = np.array(op["raws"], dtype=object).reshape(np.shape(T[sel]))
+            T[sel] = new
+    return [T.tolist() for T in tables]
+
+
+def elem_compare(case, R, refused=()):
+    if "error" in R:
+        return [("file structure", R["error"])]
+    pts, n = R["points"], case["n"]
+    if is_err(pts) or len(pts) != n:
+        return [("file structure", f"{n} points, decoder: {str(pts)[:100]}")]
+    dims = case["extra_dims"]
+    if [(d["data_type"], d["name"]) for d in R["descriptors"]] != [(d["data_type"], d["name"].encode()) for d in dims]:
+        return [("descriptors", f"declared {[(d['data_type'], d['name']) for d in dims]}, decoder read {[(d['data_type'], d['name']) for d in R['descriptors']]}")]
+    leaves = py_leaves(case["format"], eb_pairs(dims))
+    expected = elem_expected(case, set(refused))
+    seen = {}
+    for j, (name, kind) in enumerate(leaves):
+        if name[0] == "e" and name[1:].isdigit():
+            i = int(name[1:])
+            k = seen.get(name, 0)
+            seen[name] = k + 1
+            T = expected[i]
+            for p in range(n):
+                want = T[p][k] if isinstance(T[p], list) else T[p]
+                if pts[p][j] != want:
+                    hist = [f"op {q}: {o['t']} {dict((a, o[a]) for a in ('k', 'i', 'idx', 'mask', 'ps', 'es') if a in o)} = {o['raws']} as {o['value']}"
+                            for q, o in enumerate(case["ops"]) if o["dim"] == i]
+                    return [("element values", f"dimension {dims[i]['name']} ({type_str(dims[i]['data_type'], 0)}{' scaled' if dims[i]['scaled'] else ''}) "
+                             f"point {p} element {k}: the assignments leave the stored value {want}, the decoder reads {pts[p][j]}; assignments to it through "
+                             f"{case['container']}: {hist}")]
+        elif name in ("X", "intensity"):
+            for p in range(n):
+                if pts[p][j] != (p + 1 if name == "X" else p * 7):
+                    return [("other dimensions disturbed", f"point {p} {name}: assigned {p + 1 if name == 'X' else p * 7}, decoder reads {pts[p][j]}")]
+    return []
+
+
+_ELEM_OUT = {}
+
+
+def run_elems(ref, cases):
+    outs = []
+    for c in cases:
+        key = repr(c["id"]) + repr(c["ops"])
+        if key not in _ELEM_OUT:
+            try:
+                _ELEM_OUT[key] = elem_run(c)
+            except Exception as ex:
+                _ELEM_OUT[key] = {"error": f"outside the assignments: {common.exc_kind(ex)}: {str(ex)[:200]}"}
+        outs.append(_ELEM_OUT[key])
+    live = [i for i, o in enumerate(outs) if not isinstance(o, dict)]
+    dec = dict(zip(live, spec_decode_files(ref, [outs[i][0] for i in live])))
+    res = []
+    for i, (c, o) in enumerate(zip(cases, outs)):
+        if isinstance(o, dict):
+            res.append([("laspy failed", o["error"])])
+            continue
+        mms = []
+        for q, text in o[1]:
+            op = c["ops"][q]
+            mms.append((f"refused ({op['t']}{' scaled' if c['extra_dims'][op['dim']]['scaled'] else ''})", text))
+        res.append(mms + elem_compare(c, dec[i], [q for q, _ in o[1]]))
+    return res
+
+
+def elem_finding(c, mm, tag):
+    """one mismatch -> dict for the report; the case is shrunk (python reference) to the assignments that still show the class"""
+    small, detail = c, mm[1]
+    try:
+        q = len(small["ops"]) - 1
+        while q >= 0:
+            cand = dict(small, ops=small["ops"][:q] + small["ops"][q + 1:], id=f"{c['id']}.s")
+            again = [m for m in run_elems(PyRef(), [cand])[0] if m[0] == mm[0]]
+            if again:
+                small, detail = cand, again[0][1]
+            q -= 1
+    except Exception:
+        pass
+    d = {"kind": f"element assignment: {mm[0]}", "input": {"direction": "elements", "case": small}}
+    d[tag] = detail
+    return d
+
+
+def register_elems(ctx, cases):
+    for c in cases:
+        ctx.count("element assignment cases")
+        ctx.count(f"element assignment through {c['container']}")
+        for op in c["ops"]:
+            d = c["extra_dims"][op["dim"]]
+            ctx.count(f"element assignment {op['t']}" + (" scaled" if d["scaled"] else ""))
+            ctx.traces += 1
+        ctx.case(("elements", c["version"], c["format"], tuple(eb_pairs(c["extra_dims"])), repr(c["ops"])), nontrivial=True,
+                 sample={"direction": "elements", "through": c["container"], "dims": [type_str(d["data_type"], 0) + ("*scaled" if d["scaled"] else "") for d in c["extra_dims"]],
+                         "ops": [(o["t"], o["value"]) for o in c["ops"]]})
+        ctx.evaluations += c["n"] * len(py_leaves(c["format"], eb_pairs(c["extra_dims"])))
+
+
 _CASES = {}
 
 
@@ -2043,6 +2968,8 @@ def cases_for(ctx):
         _CASES["w"] = make_cases(ctx, True)
         _CASES["r"] = make_cases(ctx, False)
         _CASES["s"] = make_sessions(ctx)
+        _CASES["m"] = make_mixes(ctx)
+        _CASES["e"] = make_elem_cases(ctx)
     return _CASES["w"], _CASES["r"]
 
 
@@ -2085,6 +3012,14 @@ def correspond(ctx):
         "waveform packets / EVLRs / gap + EVLRs / EVLRs + padding; every (version, format) appended to once, plus one of mmap-edit / copy / read-edit-write "
         "in turn, plus random ones): appender entry points x record classes x chunkings; edits indexed / sliced / whole column; the reference decoder on "
         "the result and the model of append_session / edit_record on the same bytes. "
+        "(v) records and headers from different sources: every relation (same, permuted, swapped-names, retyped to an equal size, rescaled, "
+        "renamed, redescribed, resplit, other-format padded to the same length, header grown after the record was made) through every "
+        "route (open-w, LasWriter, LasData-init, points-setter, open-a, LasAppender), record sources and header sources in turn, plus random "
+        "combinations: refused, or decoded by name under the file's descriptors; model of the hand-over (taken / refused, descriptors). "
+        "(vi) element assignment routes: every (key type x scaled / plain x array / list / scalar) at least once over dimensions with 1-3 "
+        "elements of every integer and float type, 3-6 assignments per case after a whole-dimension assignment, new values always "
+        "different from what is stored; through LasData[name] / .name / .points[name] / a record / a memory map; decoder on the file "
+        "and the model of the assignments on the same triples. "
         "(iii) record-length resolution sweep: formats x descriptor sets x VLR present/absent x record length in {std-1, std, std+1, std+described-1, "
         "std+described, +1, +2..300}: model of read_from vs laspy, refusals included. "
         "non-trivial = at least one point, VLR or extra dimension; distinct by (direction, version, format, "
@@ -2133,6 +3068,25 @@ def correspond(ctx):
                 dis.append(f_)
     dis += model_sessions(S, io_)
     ctx.traces += len(io_)
+    # records and headers from different sources: the specification decoder on what laspy accepted; the model of the hand-over
+    MX = _CASES["m"]
+    mix_out = run_mixes(ref, MX)
+    register_mixes(ctx, MX, mix_out)
+    for m_, (mms, _) in zip(MX, mix_out):
+        for mm in mms:
+            f_ = mix_finding(m_, mm, "impl")
+            f_["model"] = "refused, or every value assigned through a named dimension of the record found under that name by the decoder"
+            dis.append(f_)
+    model_mixes(MX, mix_out, dis)
+    # assignment routes into the elements of extra dimensions: decoder on the written file; the model of the assignments
+    EL = _CASES["e"]
+    register_elems(ctx, EL)
+    for c_, mms in zip(EL, run_elems(ref, EL)):
+        for mm in mms:
+            f_ = elem_finding(c_, mm, "impl")
+            f_["model"] = "the positions each assignment names hold its values, every other element is what it was"
+            dis.append(f_)
+    model_elems(EL, dis)
     # which records a file has: the model of LasHeader.read_from (Gen/GenC02.v resolve_record over laspy's tables) against laspy
     RI = _CASES.setdefault("resolve", resolve_inputs(ctx))
     outs = common.run_model([f"resolve {i['format']} {eb_tok(eb_pairs(i['extra_dims']))} {'T' if i['has_vlr'] else 'F'} {i['point_size']}" for i in RI], name="c02")
@@ -2192,6 +3146,20 @@ def search(ctx, seeds):
             if mm[0] not in seen:
                 seen.add(mm[0])
                 failing.append(session_finding(s_, mm, "observed"))
+    # records and headers from different sources; assignment routes into the elements of extra dimensions
+    MM = [s_["input"]["mix"] for s_ in seeds if s_["input"].get("direction") == "mix"] + _CASES["m"]
+    for m_, (mms, _) in zip(MM, run_mixes(ref, MM)):
+        for mm in mms:
+            f_ = mix_finding(m_, mm, "observed")
+            if f_["kind"] not in seen:
+                seen.add(f_["kind"])
+                failing.append(f_)
+    EE = [s_["input"]["case"] for s_ in seeds if s_["input"].get("direction") == "elements"] + _CASES["e"]
+    for c_, mms in zip(EE, run_elems(ref, EE)):
+        for mm in mms:
+            if "element assignment: " + mm[0] not in seen:
+                seen.add("element assignment: " + mm[0])
+                failing.append(elem_finding(c_, mm, "observed"))
     # record-length resolution: the inputs named by the correspondence, then the whole sweep
     RI = _CASES.setdefault("resolve", resolve_inputs(ctx))
     for inp in [s_["input"] for s_ in seeds if isinstance(s_.get("input"), dict) and s_["input"].get("direction") == "resolve"] + RI:
@@ -2207,11 +3175,21 @@ def search(ctx, seeds):
         diff = [c["id"] for c, a, b in zip(Rc, mf, files) if a != b]
         if diff:
             ctx.notes.append(f"the extracted encoder and the python transcription built different files for cases {diff[:10]}")
+    # wrongly decoded values first, then the other classes, assignments / hand-overs laspy refused and stale records last
+    failing.sort(key=lambda f_: 2 if ("refused" in f_["kind"] or f_["kind"].startswith("stale record")) else
+                 0 if any(w in f_["kind"] for w in ("point values", "element values", "point field")) else 1)
     return failing[:10]
 
 
 def replay(ctx, data):
     inp = data.get("failing_input", {}).get("input")
+    if isinstance(inp, dict) and inp.get("direction") in ("mix", "elements"):
+        mms = run_mixes(PyRef(), [inp["mix"]])[0][0] if inp["direction"] == "mix" else run_elems(PyRef(), [inp["case"]])[0]
+        for mm in mms:
+            print(f"REPRODUCED: {inp['direction']}: {mm[0]}: {mm[1]}")
+        if not mms:
+            print("not reproduced")
+        return 1 if mms else 0
     if isinstance(inp, dict) and inp.get("direction") == "resolve":
         obs = resolve_oracle(inp)
         print(f"REPRODUCED: resolve: {obs}" if obs else "not reproduced")
